@@ -166,11 +166,6 @@ def make_classes():
             ENV.s.log("dsetflag", who())
             super().on_thread_stop()
 
-        def start(self):
-            # the copy of the emitter set is taken without a yield after the call starts
-            ENV.s.log("startcopy", who(), [getattr(e, "serial", -1) for e in self.emitters.copy()])
-            super().start()
-
         def _clear_emitters(self):
             ENV.s.log("clear", who(), [getattr(e, "serial", -1) for e in self.emitters])
             super()._clear_emitters()
@@ -350,13 +345,25 @@ def dec(ev):
 
 
 # ------------------------------------------------------------------------------------------------ model adapter
-def to_wire(events):
+def start_is_locked():
+    """Which variant of BaseObserver.start() is under test (pinned: no lock; repair F12: under the observer lock)."""
+    import inspect
+
+    from watchdog.observers.api import BaseObserver
+    try:
+        return "_lock" in inspect.getsource(BaseObserver.start)
+    except (OSError, TypeError):
+        return False
+
+
+def to_wire(events, fixed=False):
     """Observation log -> wire items of the `observer` model (harness.core.sx format)."""
     from harness.core import Atom
     A = Atom
     b = lambda x: A("1" if x else "0")  # noqa: E731
     out = []
     i, n = 0, len(events)
+    pending_ord = {}     # tid -> emitter order of a start() whose copy is taken after the next acq
     while i < n:
         e = events[i]
         k = e[1]
@@ -365,11 +372,29 @@ def to_wire(events):
             continue
         if k == "call":
             out.append([A("call"), A(e[2]), [A(e[3][0])] + list(e[3][1:])])
+            if e[3][0] == "start":
+                # the order in which start() visits the emitters = its emstart observations up to its return
+                order, depth = [], 0
+                for f in events[i:]:
+                    if f[1] == "call" and f[2] == e[2]:
+                        depth += 1
+                    elif f[1] == "ret" and f[2] == e[2]:
+                        if depth == 0:
+                            break
+                        depth -= 1
+                    elif f[1] == "emstart" and f[2] == e[2] and depth == 0:
+                        order.append(f[3])
+                if fixed:
+                    pending_ord[e[2]] = order
+                else:
+                    out.append([A("ordprefix"), A(e[2]), order])
         elif k == "ret":
             out.append([A("ret"), A(e[2]), [A(e[3][0])] + list(e[3][1:]), b(e[4] is not None)])
         elif k in ("acq", "rel", "dsetflag", "putm"):
             out.append([A(k), A(e[2])])
-        elif k in ("clear", "startcopy"):
+            if k == "acq" and e[2] in pending_ord:
+                out.append([A("ordprefix"), A(e[2]), pending_ord.pop(e[2])])
+        elif k == "clear":
             out.append([A("ord"), A(e[2]), list(e[3])])
         elif k == "emstart":
             out.append([A(k), A(e[2]), e[3], b(e[4])])
@@ -407,7 +432,8 @@ def lockstep(runs):
     """runs: list of (prog, Scheduler). Replays each observation log through the extracted model.
     Returns list of (index, result sexp)."""
     from harness import core
-    cases = [core.sx([core.Atom("replay")] + to_wire(s.events)) for _, s in runs]
+    fx = start_is_locked()
+    cases = [core.sx([core.Atom("replay"), core.Atom("1" if fx else "0")] + to_wire(s.events, fx)) for _, s in runs]
     return core.run_model("observer", cases)
 
 
@@ -673,3 +699,112 @@ def order_programs(maxlen, from_callback=False):
                            threads=[[["schedule", 0, 0], ["start"]]], cbs={"0": [seq]})
             else:
                 yield dict(nw=1, nh=1, kind="scripted", scripts={"0": [0]}, threads=[seq], cbs={})
+
+
+# ------------------------------------------------------------------------------------------------ campaigns
+def n_starts(prog):
+    return sum(1 for l in prog["threads"] for c in l if c[0] == "start") + \
+        sum(1 for v in prog.get("cbs", {}).values() for l in v for c in l if c[0] == "start")
+
+
+def summarize(s):
+    ev = s.events
+    return dict(callbacks=sum(1 for e in ev if e[1] == "cb"), dequeued=sum(1 for e in ev if e[1] == "get" and e[2] != "stop"),
+                raised=sorted({f"{e[3][0]}:{e[4]}" for e in ev if e[1] == "ret" and e[4]}),
+                steps=s.steps, deadlock=bool(s.deadlock), alive_after=list(s.alive_after))
+
+
+def case_of(prog, s):
+    return {"prog": prog, "choices": [c for _, c in s.choices]}
+
+
+def run_case(case, max_steps=6000):
+    return run_program(case["prog"], ds.ReplayChooser(case["choices"]), max_steps=max_steps)
+
+
+def schedules(ctx, prog, rng, n_random, explore_runs=0):
+    """Yield finished Schedulers: n_random random schedules, or a bounded exhaustive exploration (<= 2 pre-emptions)."""
+    if explore_runs:
+        yield from ds.explore(lambda ch: run_program(prog, ch), preemption_bound=2, max_runs=explore_runs)
+    else:
+        for _ in range(n_random):
+            yield run_program(prog, ds.RandomChooser(rng.randrange(1 << 30), switch_prob=rng.choice([0.15, 0.3, 0.5])))
+
+
+def campaign(ctx, res, prop, programs, judge, n_random=3, explore_runs=0, do_lockstep=True, tag=""):
+    """Run every program under several schedules; judge(prog, s) -> (list of (law, detail, sigextra), nontrivial key or None)."""
+    from harness.core import Failure, Mismatch, digest
+    rng = ctx.rng("sched" + tag)
+    batch = []
+    for prog in programs:
+        for s in schedules(ctx, prog, rng, n_random, explore_runs):
+            res.evaluations += 1
+            bad, key = judge(prog, s)
+            if key is not None:
+                res.nontrivial.add(digest([prog, key]))
+            res.hist("emitter_kind", prog.get("kind", "scripted"))
+            res.hist("api_threads", len(prog["threads"]))
+            res.hist("reentrant", bool(prog.get("cbs")))
+            for e in s.events:
+                if e[1] == "ret" and e[4]:
+                    res.hist("calls_that_raised", f"{e[3][0]}:{e[4]}")
+            if len(res.samples) < 4 and key is not None:
+                res.samples.append({"program": prog, "outcome": summarize(s)})
+            for law, detail, extra in bad[:1]:
+                sig = {"law": law, "kind": prog.get("kind", "scripted"), "double_start": n_starts(prog) > 1}
+                sig.update(extra)
+                res.failures.append(Failure(what=f"{prop}: {law}: {detail}", case=case_of(prog, s), signature=sig,
+                                            observed=detail, expected="property " + prop))
+            if do_lockstep and prog.get("kind", "scripted") == "scripted" and not s.deadlock and not s.livelock:
+                batch.append((prog, s))
+            if len(batch) >= 400:
+                flush_lockstep(res, batch)
+                batch = []
+    flush_lockstep(res, batch)
+
+
+def flush_lockstep(res, batch):
+    from harness.core import Mismatch
+    if not batch:
+        return
+    outs = lockstep(batch)
+    for (prog, s), o in zip(batch, outs):
+        res.traces_validated += 1
+        if o[0] != "ok":
+            res.mismatches.append(Mismatch(pair="observer lock-step", case=case_of(prog, s), model=str(o)[:300],
+                                           impl=str(to_wire(s.events, start_is_locked())[max(0, int(o[1]) - 3):int(o[1]) + 1])[:400]
+                                           if o[0] == "mismatch" else ""))
+            continue
+        fin_model = o[2] == "1"
+        if fin_model != (not s.alive_after):
+            res.mismatches.append(Mismatch(pair="observer finished()", case=case_of(prog, s), model=f"finished={fin_model}",
+                                           impl=f"alive_after={s.alive_after}"))
+        if o[3] != "0":
+            res.mismatches.append(Mismatch(pair="observer deadlocked()", case=case_of(prog, s),
+                                           model=f"{o[3]} replayed states are deadlocked in the model", impl="run completed"))
+
+
+def replay_generic(ctx, obj, judges):
+    case = obj.get("case", obj)
+    s = run_case(case)
+    for i, e in enumerate(s.events):
+        print(i, e)
+    print("deadlock:", s.deadlock, "livelock:", s.livelock, "alive_after:", s.alive_after, "uncaught:", s.uncaught())
+    rc = 0
+    for j in judges:
+        bad, _ = j(case["prog"], s)
+        for b in bad:
+            print("FAIL:", b)
+            rc = 1
+    if case["prog"].get("kind", "scripted") == "scripted" and not s.deadlock and not s.livelock:
+        o = lockstep([(case["prog"], s)])[0]
+        print("lock-step:", o)
+        if o[0] != "ok":
+            rc = 1
+    return rc
+
+
+LOCKSTEP_NOTE = ("correspondence mode: LOCK-STEP - every observation of the real run (lock acquire/release, emitter start/stop/join, "
+                 "flag checks, queue put/get, handler turns and callbacks, call/return, thread exits) is replayed as one label "
+                 "through the extracted Observer.step and the model's predicted observation must equal the real one; "
+                 "also finished() vs. threads alive after join and deadlocked()=false on every replayed state")
